@@ -223,7 +223,12 @@ def run(chk):
                "trimEnd": 0, "splitWhiteSpace": 0, "toLower": 0, "toUpper": 0, "matches": 1, "matchCaptures": 1, "matchReplace": 2,
                "matchReplaceOnce": 2}
     funcs = {"abs": 1, "sqrt": 1, "pow": 2, "log": 1, "lg": 1, "ceil": 1, "floor": 1, "round": 1}
-    gcases, gwant, glabels = [], [], []
+    gcases, gwant, glabels, gnullpad = [], [], [], []
+    # the recorded witness of the open finding dispatch-null-padding, and its siblings: an explicit trailing null
+    for src in ["'abc'.contains('a', null)", "'abc'.trim(null)", "'a b'.splitWhiteSpace(null)", "'abc'.toUpper(null, null)"]:
+        gcases.append(evalsrc_case(src, binds=[], ufuncs=[], std=False))
+        glabels.append("explicit trailing null: " + src)
+        gnullpad.append(True)
     for m, ar in methods.items():
         for n in range(0, 5):
             if n == ar:
@@ -233,6 +238,7 @@ def run(chk):
                 binds = [("s", vs("abc"))] + [("a%d" % i, a) for i, a in enumerate(args)]
                 gcases.append(evalsrc_case("s.%s(%s)" % (m, ", ".join("a%d" % i for i in range(n))), binds=binds, ufuncs=[], std=False))
                 glabels.append("%s with %d arguments" % (m, n))
+                gnullpad.append(n > ar and all(a == VNULL for a in args[ar:]))
         for recv in pool:
             if recv.startswith("s"):
                 continue
@@ -240,15 +246,17 @@ def run(chk):
             binds = [("r", recv)] + [("a%d" % i, a) for i, a in enumerate(args)]
             gcases.append(evalsrc_case("r.%s(%s)" % (m, ", ".join("a%d" % i for i in range(ar))), binds=binds, ufuncs=[], std=False))
             glabels.append("%s on receiver %s" % (m, recv[:12]))
+            gnullpad.append(False)
         for bad_arg in pool:
             if ar == 0 or (bad_arg.startswith("s") and m != "splitAt") or (bad_arg.startswith("i") and m == "splitAt"):
                 continue
             if bad_arg == VNULL:
-                continue                      # recorded finding C15 dispatch-null-padding (null stands for a missing argument)
+                continue                      # a null in a required position is a wrong type like any other only when padding is told apart
             args = [bad_arg] + [vs("a")] * (ar - 1)
             binds = [("s", vs("abc"))] + [("a%d" % i, a) for i, a in enumerate(args)]
             gcases.append(evalsrc_case("s.%s(%s)" % (m, ", ".join("a%d" % i for i in range(ar))), binds=binds, ufuncs=[], std=False))
             glabels.append("%s with argument %s" % (m, bad_arg[:12]))
+            gnullpad.append(False)
     for f, ar in funcs.items():
         for n in range(0, 5):
             if n == ar:
@@ -257,16 +265,20 @@ def run(chk):
             binds = [("a%d" % i, a) for i, a in enumerate(args)]
             gcases.append(evalsrc_case("%s(%s)" % (f, ", ".join("a%d" % i for i in range(n))), binds=binds, ufuncs=[], std=False))
             glabels.append("%s with %d arguments" % (f, n))
+            gnullpad.append(False)
         for bad_arg in [vs("a"), vb(True), vlist([vi(1)]), vmap([]), vy(b"a")]:
             args = [bad_arg] + [vi(2)] * (ar - 1)
             binds = [("a%d" % i, a) for i, a in enumerate(args)]
             gcases.append(evalsrc_case("%s(%s)" % (f, ", ".join("a%d" % i for i in range(ar))), binds=binds, ufuncs=[], std=False))
             glabels.append("%s with argument %s" % (f, bad_arg[:12]))
+            gnullpad.append(False)
+    assert len(gnullpad) == len(gcases)
     gimpl, gmodel = tie(chk, "arity and type grid", gcases, labels=glabels)
-    for lab, c, r in zip(glabels, gcases, gimpl):
+    for lab, c, r, pad in zip(glabels, gcases, gimpl, gnullpad):
         if not is_dead(r) and not r.startswith("ERR"):
+            # every surplus argument is an explicit null: the recorded finding (the dispatcher cannot tell it from a missing one)
             chk.violation("a built-in accepts an arity or argument type outside its documented shapes",
-                          dict(case=c, label=lab, impl=r, expected="ERR"))
+                          dict(case=c, label=lab, impl=r, expected="ERR"), key="dispatch-null-padding" if pad else None)
     chk.stream("every string method and math function with arities 0..4 other than its own, with every non-string receiver "
                "and with every wrong first-argument type", len(gcases), len(set(gcases)), exhaustive=False)
     # ---- run ----------------------------------------------------------------------------------------------------
